@@ -189,6 +189,32 @@ def depth3():
     ]
 
 
+CORE = {
+    "int", "bool", "float", "str", "None", "Color", "Mood", "Level", "Tag", "Literal[1, 2, 'a']", "Literal[True, 3]",
+    "Decimal", "UUID", "date", "datetime", "time", "timedelta", "PosixPath" , "Path",
+    "list[int]", "Sequence[str]", "set[int]", "deque[int]", "tuple[int,...]", "tuple[int,str]", "tuple[int,str,bool]",
+    "dict[str,int]", "dict[int,str]", "Mapping[str,int]", "Optional[int]", "Optional[str]", "int|None",
+    "Point", "SPoint", "KPoint", "Line", "Bag", "Mixed", "NT", "NTS", "TD", "TDN", "Plain", "Slotted",
+    "NewType(int)", "alias(list[int])", "alias(Point)", "alias('str')", "Final[int]",
+    "Tree", "Chain", "DNode", "Ping", "Dept",
+    "list[list[int]]", "dict[str,list[int]]", "list[Point]", "dict[str,Point]", "list[Optional[int]]",
+    "tuple[Point,list[int]]", "Optional[Point]", "list[date]", "list[TD]", "list[tuple[int,str]]",
+}
+
+
+def select(tier: str, seed: int = 0, extra: int = 8):
+    """quick: the fixed core plus a seed-rotated slice of the rest; thorough: everything."""
+    cat = catalogue(tier)
+    if tier != "quick":
+        return cat
+    core = [s for s in cat if s.name in CORE]
+    rest = [s for s in cat if s.name not in CORE]
+    if rest and extra:
+        k = (seed * extra) % len(rest)
+        core += (rest + rest)[k:k + extra]
+    return core
+
+
 def catalogue(tier: str, union_free=False):
     cat = scalars_transparent() + scalars_realised() + containers1() + structured() + wrappers() + recursive(2) + depth2()
     if tier == "thorough":
